@@ -1,3 +1,16 @@
-(** Correspondence runner for C09: the property's own projection of a recorder history. *)
-From Playback Require Export Run.RunRec.
-Definition check_case : case -> bool := check_with (fun m i => eq_all m i).
+(** Correspondence runner for C09: (a) the property's own projection of a recorder history (everything);
+    (b) racing threads (Run/RunRace.v): the shared part of the recorder afterwards. *)
+From Playback Require Export Run.RunRec Run.RunRace.
+
+Inductive case09 :=
+| H (c : RunRec.case)
+| T (v : variant) (m0 m1 : meth) (m2 : option meth) (e f : nat) (observed : race_obs)
+| S (v : variant) (ms : list meth) (sched : list nat) (observed : race_obs).
+Definition case := case09.
+
+Definition check_case (c : case) : bool :=
+  match c with
+  | H hc => check_with (fun m i => eq_all m i) hc
+  | T v m0 m1 m2 e f o => eq_race_idle (model_race v m0 m1 m2 e f) o
+  | S v ms sched o => eq_race_idle (model_sched v ms sched) o
+  end.
